@@ -35,28 +35,45 @@ def prepare():
 
 
 class CrashFile:
-    """Stands in for the temp file object of write_head when a crash is armed."""
-    def __init__(self, real, stage, path):
-        self.real, self.stage, self.path = real, stage, path
+    """Stands in for the file object write_head() writes through while a crash is armed. A crash is the death of the process:
+    what was written but not yet flushed/closed never reaches the disk. So the wrapper keeps the data in its own buffer and hands
+    it to the real file only on a close that happens *before* the crash; closes performed while the crash unwinds the stack
+    (`with` blocks) must not save anything."""
+    def __init__(self, real, stage, path, arm):
+        self.real, self.stage, self.path, self.arm = real, stage, path, arm
+        self.buf = []
 
     def write(self, data):
         if self.stage == 'torn_write':
-            self.real.write(data[:max(1, len(data) // 2)])
+            self.real.write(data[:max(1, len(data) // 2)])     # a prefix made it to the disk
             self.real.flush()
-            self.real.close()
+            self.arm['crashed'] = True
             raise Crash()
         if self.stage == 'lost_buffer':
-            self.real.close()           # the data never left the process
-            open(self.path, 'w').close()
+            self.arm['crashed'] = True                          # nothing left the process
             raise Crash()
-        return self.real.write(data)
+        self.buf.append(data)
+        return len(data)
+
+    def flush(self):
+        if not self.arm.get('crashed'):
+            self.real.write(''.join(self.buf))
+            self.buf = []
+            self.real.flush()
+
+    def close(self):
+        if not self.arm.get('crashed'):
+            self.real.write(''.join(self.buf))
+        self.buf = []
+        self.real.close()
 
     def __enter__(self):
         return self
 
     def __exit__(self, *a):
-        self.real.close()
-        if self.stage == 'after_close' and a[0] is None:
+        self.close()
+        if self.stage == 'after_close' and a[0] is None and not self.arm.get('crashed'):
+            self.arm['crashed'] = True
             raise Crash()
         return False
 
@@ -73,6 +90,7 @@ class OsProxy:
         if self._arm.get('stage') == 'after_rename':
             self._arm['stage'] = None
             self._arm['fired'] = True
+            self._arm['crashed'] = True
             raise Crash()
 
 
@@ -86,18 +104,19 @@ def install_faults(arm):
             if st_ == 'before_open':
                 arm['stage'] = None
                 arm['fired'] = True
+                arm['crashed'] = True
                 raise Crash()
             f = real_open(path, mode, *a, **kw)
             if st_ == 'after_open':
                 f.close()
                 arm['stage'] = None
                 arm['fired'] = True
+                arm['crashed'] = True
                 raise Crash()
-            if st_ in ('torn_write', 'lost_buffer', 'after_close'):
+            if st_ != 'after_rename':
                 arm['stage'] = None
-                arm['fired'] = True
-                return CrashFile(f, st_, path)
-            return f
+            arm['fired'] = True
+            return CrashFile(f, st_, path, arm)     # also for 'after_rename': the file may still be open when the rename happens
         return real_open(path, mode, *a, **kw)
     rl.open = fake_open
     rl.os = OsProxy(rm._M['orig_os'], arm)
@@ -154,7 +173,7 @@ def run_case(case):
             def do_save(stage, closing):
                 nonlocal saved_floor, reads_since_save
                 stats['saves'] += 1
-                arm['stage'], arm['fired'] = (None if stage == 'none' else stage), False
+                arm['stage'], arm['fired'], arm['crashed'] = (None if stage == 'none' else stage), False, False
                 floor_now = r.floor
                 try:
                     if closing:
